@@ -443,8 +443,9 @@ def eval (env : Env) (root : Msg) : Expr → (part : Nat) → Msg → St → Tri
     keys names st
   | .new _, _, _, st =>
     (if pathslice env.path NAME_MAX1 (-2) (-2) == some [110, 101, 119] then .match else .nomatch, st)
-  | .old _, _, _, st =>
-    if flagsIsSet st.flags 83 then (.nomatch, st)
+  | .old _, part, _, st =>
+    -- an attachment is a zeroed `struct message`: it carries no maildir flags of its own
+    if flagsIsSet (if part == 0 then st.flags else MFlags.empty) 83 then (.nomatch, st)
     else (if pathslice env.path NAME_MAX1 (-2) (-2) == some [99, 117, 114] then .match else .nomatch, st)
   | .stat lno path, part, _, st =>
     let mh : Match := { ty := .stat, lno := lno, part := part, strings := [path] }
